@@ -1,1 +1,106 @@
-fn main(){}
+//! Hook recorder: used as `cmd` of generated hooks. Reports what the daemon
+//! handed to the hook (argv, environment, stdin, file snapshots, timing) to the
+//! harness over a unix socket, waits for the harness's go-ahead, then ends with
+//! the planned behaviour.
+//! usage: hookrec <sock> <hook_id> <exit:N|kill> [--snap <path>]... [--sleep-ms N] -- <args...>
+use std::io::{BufRead, BufReader, Read, Write};
+use std::os::unix::fs::MetadataExt;
+use std::os::unix::net::UnixStream;
+
+fn now_ns() -> u64 {
+	let mut ts = libc::timespec { tv_sec: 0, tv_nsec: 0 };
+	unsafe { libc::clock_gettime(libc::CLOCK_MONOTONIC, &mut ts) };
+	ts.tv_sec as u64 * 1_000_000_000 + ts.tv_nsec as u64
+}
+
+fn hex(b: &[u8]) -> String {
+	b.iter().map(|x| format!("{x:02x}")).collect()
+}
+
+fn main() {
+	let t_start = now_ns();
+	let argv: Vec<String> = std::env::args().collect();
+	if argv.len() < 4 {
+		eprintln!("hookrec: bad usage");
+		std::process::exit(97);
+	}
+	let sock = &argv[1];
+	let hook_id = &argv[2];
+	let behaviour = &argv[3];
+	let mut snaps: Vec<String> = vec![];
+	let mut sleep_ms = 0u64;
+	let mut i = 4;
+	let mut rest: Vec<String> = vec![];
+	while i < argv.len() {
+		match argv[i].as_str() {
+			"--snap" if i + 1 < argv.len() => {
+				snaps.push(argv[i + 1].clone());
+				i += 2;
+			}
+			"--sleep-ms" if i + 1 < argv.len() => {
+				sleep_ms = argv[i + 1].parse().unwrap_or(0);
+				i += 2;
+			}
+			"--" => {
+				rest = argv[i + 1..].to_vec();
+				break;
+			}
+			_ => {
+				rest = argv[i..].to_vec();
+				break;
+			}
+		}
+	}
+	let mut stdin = vec![];
+	let _ = std::io::stdin().read_to_end(&mut stdin);
+	println!("hookrec-out:{hook_id}");
+	eprintln!("hookrec-err:{hook_id}");
+	let env: serde_json::Map<String, serde_json::Value> = std::env::vars_os()
+		.map(|(k, v)| (k.to_string_lossy().to_string(), serde_json::Value::String(v.to_string_lossy().to_string())))
+		.collect();
+	let snap_json: Vec<serde_json::Value> = snaps
+		.iter()
+		.map(|p| match std::fs::metadata(p) {
+			Ok(m) => {
+				let bytes = std::fs::read(p).unwrap_or_default();
+				serde_json::json!({"path": p, "exists": true, "is_file": m.is_file(), "mode": m.mode() & 0o7777, "uid": m.uid(), "gid": m.gid(), "len": m.len(), "bytes": hex(&bytes)})
+			}
+			Err(_) => serde_json::json!({"path": p, "exists": false}),
+		})
+		.collect();
+	if sleep_ms > 0 {
+		std::thread::sleep(std::time::Duration::from_millis(sleep_ms));
+	}
+	let umask = unsafe {
+		let m = libc::umask(0);
+		libc::umask(m);
+		m
+	};
+	let rec = serde_json::json!({
+		"hook_id": hook_id,
+		"args": rest,
+		"env": env,
+		"stdin": hex(&stdin),
+		"t_start": t_start,
+		"pid": std::process::id(),
+		"ppid": unsafe { libc::getppid() },
+		"umask": umask,
+		"cwd": std::env::current_dir().map(|p| p.display().to_string()).unwrap_or_default(),
+		"snaps": snap_json,
+	});
+	if let Ok(mut s) = UnixStream::connect(sock) {
+		let _ = s.write_all(format!("{rec}\n").as_bytes());
+		let _ = s.flush();
+		let mut ack = String::new();
+		let mut r = BufReader::new(s.try_clone().expect("clone"));
+		let _ = r.read_line(&mut ack);
+		let _ = s.write_all(format!("{{\"end\":{}}}\n", now_ns()).as_bytes());
+		let _ = s.flush();
+	}
+	if behaviour == "kill" {
+		unsafe { libc::kill(libc::getpid(), libc::SIGKILL) };
+		std::thread::sleep(std::time::Duration::from_secs(5));
+	}
+	let code: i32 = behaviour.strip_prefix("exit:").and_then(|c| c.parse().ok()).unwrap_or(0);
+	std::process::exit(code);
+}
